@@ -47,6 +47,12 @@ const (
 	evAbandoned  = "runner-abandoned" // harness: the pool's counters say the stage's task was consumed, its handlers were never called
 	evCancel     = "ctx-cancel"       // harness: the context of the pooled stages was cancelled
 	evLost       = "runner-lost"      // harness: an async stage was handed to its pool, the pool drained a later sentinel task, the stage never ran
+	// evRegPanic: Stage.Identifier() was called - by the state machine's executeStage, which is registering the stage: pending
+	// is incremented - and panics (Info = identifier: injected panic; typed-nil: the stage is a typed nil pointer, the
+	// real Identifier() dereferences its nil receiver).  Recorded only for stages specified to panic there.
+	evRegPanic = "register-panic"
+	// evTypedNil: harness: a typed nil stage pointer was handed to the pipeline (as root / returned by NextStages())
+	evTypedNil = "typed-nil-handed-over"
 )
 
 // event is one entry of the trace; Seq is the logical clock.
@@ -281,6 +287,80 @@ type hStage struct {
 	plan stage.PlanNode
 }
 
+// Identifier is called by the pipeline's state machine while it registers the stage.
+func (h *hStage) Identifier() string {
+	if h == nil {
+		// a typed nil stage: find the case through the goroutine the stage was handed over on, record, then let the real
+		// stage type dereference its nil receiver
+		typedNilArrived(goid())
+		return (*stage.VerifStage)(nil).Identifier()
+	}
+	if h.spec.IdentPanic {
+		h.c.rec(evRegPanic, h.key, 0, nil, "identifier")
+		panic(fmt.Sprintf("c19-fail-s%d-ident", h.spec.ID))
+	}
+	return h.VerifStage.Identifier()
+}
+
+// A typed nil *hStage carries no state: the stages handed over as typed nil pointers are queued per goroutine (the
+// pipeline registers the stages NextStages() returned on the goroutine that called NextStages(), in order; the root
+// on the goroutine that calls pipeline.Execute).
+var typedNilQ struct {
+	sync.Mutex
+	m map[int64][]typedNilRef
+}
+
+type typedNilRef struct {
+	c   *caseRun
+	key int
+}
+
+func typedNilHandOver(g int64, c *caseRun, key int) {
+	typedNilQ.Lock()
+	if typedNilQ.m == nil {
+		typedNilQ.m = map[int64][]typedNilRef{}
+	}
+	typedNilQ.m[g] = append(typedNilQ.m[g], typedNilRef{c, key})
+	typedNilQ.Unlock()
+}
+
+func typedNilArrived(g int64) {
+	typedNilQ.Lock()
+	q := typedNilQ.m[g]
+	var ref typedNilRef
+	if len(q) > 0 {
+		ref = q[0]
+		if len(q) == 1 {
+			delete(typedNilQ.m, g)
+		} else {
+			typedNilQ.m[g] = q[1:]
+		}
+	}
+	typedNilQ.Unlock()
+	if ref.c != nil {
+		ref.c.rec(evRegPanic, ref.key, 0, nil, "typed-nil")
+	}
+}
+
+// typedNilForget drops what the case queued and the pipeline never asked for.
+func typedNilForget(c *caseRun) {
+	typedNilQ.Lock()
+	for g, q := range typedNilQ.m {
+		keep := q[:0]
+		for _, ref := range q {
+			if ref.c != c {
+				keep = append(keep, ref)
+			}
+		}
+		if len(keep) == 0 {
+			delete(typedNilQ.m, g)
+		} else {
+			typedNilQ.m[g] = keep
+		}
+	}
+	typedNilQ.Unlock()
+}
+
 func (h *hStage) Plan() stage.PlanNode {
 	h.c.rec(evPlan, h.key, 0, nil, "")
 	if h.spec.PlanPanic {
@@ -400,6 +480,14 @@ func (c *caseRun) build(s *stageSpec, depth int) stage.Stage {
 	id := s.ID + c.instances[s.ID]*instStride
 	c.instances[s.ID]++
 	c.mu.Unlock()
+	if s.TypedNil {
+		// (the root is built by the driver and registered on the goroutine that calls pipeline.Execute: see runCaseOnce)
+		if depth > 0 {
+			typedNilHandOver(goid(), c, id)
+		}
+		c.rec(evTypedNil, id, 0, nil, "")
+		return (*hStage)(nil)
+	}
 	mk := func(i int) stage.PlanNode {
 		o := s.Ops[i]
 		op := &hOp{c: c, st: id, idx: i, outcome: o.Outcome, gated: serial && i == 0}
@@ -588,6 +676,9 @@ func runCaseOnce(spec *treeSpec, opts runOpts) *caseOutcome {
 		c.mu.Lock()
 		c.gOwner[goid()] = -1
 		c.mu.Unlock()
+		if spec.Root.TypedNil {
+			typedNilHandOver(goid(), c, spec.Root.ID)
+		}
 		defer func() {
 			if r := recover(); r != nil {
 				c.rec(evMainPanic, -1, 0, fmt.Errorf("%v", r), "")
@@ -761,6 +852,7 @@ func runCaseOnce(spec *treeSpec, opts runOpts) *caseOutcome {
 		}
 	}
 	out.Stats = pipeline.Stats()
+	typedNilForget(c)
 	c.mu.Lock()
 	// release anything still parked (only after a watchdog) so goroutines can end
 	for id, ch := range c.parked {
